@@ -59,7 +59,7 @@ theorem parseDecl_plain (env : Env) (F D : Nat) (pt : DType) (mods : Mods) (loca
     (hpt : isFnType pt = false)
     (hy : Yields env.cfg w.buf ops bmid) (ha : applyPtrOps pt (ops.map (·.type)) = some d1)
     (htx : tokenEofOk env.cfg bmid = .ok (some x, bx)) (hx : x.type = "NAME") (hxv : identVal x.value = true)
-    (httm : tokenEofOk env.cfg bx = .ok (some tm, b')) (htm : tm.type = ";" ∨ tm.type = "," ∨ tm.type = "=")
+    (httm : tokenEofOk env.cfg bx = .ok (some tm, b')) (htm : tm.type = ";" ∨ tm.type = "," ∨ tm.type = "=" ∨ tm.type = ":")
     (hF : ops.length + 1 ≤ F) :
     ∃ (w' : World) (t' : Tok), SameButLog w w' ∧ tokenEofOk env.cfg w'.buf = .ok (some t', b') ∧
       t'.type = tm.type ∧ t'.value = tm.value ∧
@@ -87,10 +87,10 @@ theorem parseDecl_plain (env : Env) (F D : Nat) (pt : DType) (mods : Mods) (loca
   have hc4v : c4.value = x.value := by rw [hv4, hv3, hv2, hv1]
   obtain ⟨w5, t5, hpq, hs5, ht5, hty5, hv5⟩ := plain_pqname env F (core F D) true false false c4 [] w4 bx b' tm
     (by rw [hty4, hty3, hty2, hty1, hx]) (by rw [hc4v]; exact hpv) (by rw [hc4v]; exact hnc) (by simp)
-    (by rw [hb4]; exact .nil _) httm (by rcases htm with h | h | h <;> (rw [h]; decide)) (by rcases htm with h | h | h <;> (rw [h]; decide))
+    (by rw [hb4]; exact .nil _) httm (by rcases htm with h | h | h | h <;> (rw [h]; decide)) (by rcases htm with h | h | h | h <;> (rw [h]; decide))
     (by simp; omega)
   obtain ⟨w6, t6, hi6, hs6, ht6, hty6, hv6⟩ := step_tokenIf_miss env ["("] (logged env w5 "parse_pqname") t5 b'
-    (by rw [logged_buf']; exact ht5) (by rw [hty5]; rcases htm with h | h | h <;> (rw [h]; decide))
+    (by rw [logged_buf']; exact ht5) (by rw [hty5]; rcases htm with h | h | h | h <;> (rw [h]; decide))
   refine ⟨w6, t6, (((((hs1.trans hs2).trans hs3).trans hs4).trans hs5).butLog.trans (logged_butLog env w5 _)).trans hs6.butLog,
     ht6, by rw [hty6, hty5], by rw [hv6, hv5], ?_⟩
   unfold parseDecl parseCvPtr
@@ -214,6 +214,57 @@ theorem declarator_field (env : Env) (F D : Nat) (pt : DType) (location : LocRef
     simp only [bind, interp_bind, hi1, hi5, fieldEmit, Block.view, hk, hacc, decide_true, Bool.false_eq_true, ↓reduceIte, hasKey,
       List.any_nil, P.emit, interp, hst5, plainField] at hdel ⊢
     simp only [hdel, Bool.false_eq_true, ↓reduceIte, bind, interp_bind, pure, interp, hi7', hty7, hty5, hty1, afterDeclarator]
+    rcases htm with h | h <;> simp [h, interp]
+  · rw [hs7.anon]; show w5.anon = _; rw [hs5.anon]; exact hs1.anon
+  · rw [hs7.nextId]; show w5.nextId = _; rw [hs5.nextId]; exact hs1.nextId
+  · rw [hs7.mainTok]; show w5.mainTok = _; rw [hs5.mainTok]; exact hs1.mainTok
+
+/-- **one bit-field declarator `ptr-ops x : width` and the `,` / `;` after it, in a class body**: exactly ONE
+    `on_class_field` whose `bits` is the written decimal width -/
+theorem declarator_field_bits (env : Env) (F D : Nat) (pt : DType) (location : LocRef) (doxygen : Option String)
+    (ops : List Tok) (x colon num tm : Tok) (d1 : DType) (w : World) (bmid bx bc bn b' : Buf)
+    (blk : Block) (rest : List Block) (hstack : w.stack = blk :: rest) (hk : blk.hdr.kind = .cls) (acc : String) (hacc : blk.access = some acc)
+    (hmu : w.muted = false) (hfa : ¬ env.faultAt = some w.delivered)
+    (hpt : isFnType pt = false)
+    (hy : Yields env.cfg w.buf ops bmid) (ha : applyPtrOps pt (ops.map (·.type)) = some d1)
+    (htx : tokenEofOk env.cfg bmid = .ok (some x, bx)) (hx : x.type = "NAME") (hxv : identVal x.value = true)
+    (htc : tokenEofOk env.cfg bx = .ok (some colon, bc)) (hc : colon.type = ":")
+    (htn : tokenEofOk env.cfg bc = .ok (some num, bn)) (hn : num.type = "INT_CONST_DEC") (hdig : allDigits num.value = true)
+    (httm : tokenEofOk env.cfg bn = .ok (some tm, b')) (htm : tm.type = ";" ∨ tm.type = ",")
+    (hF : ops.length + 1 ≤ F) :
+    ∃ (w7 : World) (c : CTok) (dox : Option String) (ev : Event),
+      interp env (declaratorBody F (core F (D + 1)) pt {} .none false false (location, doxygen)) w =
+        (w7, .ok (afterDeclarator tm c)) ∧
+      SigEq b' w7.buf ∧ w7.stack = { blk with loc := location } :: rest ∧
+      w7.events = w.events ++ [ev] ∧ ev.kind = .item (.classField { plainField x d1 acc dox with bits := some num.value.toNat! }) ∧
+      ev.stateId = blk.id ∧ ev.parentId = rest.head?.map (·.id) ∧ (∀ d, doxygen = some d → dox = some d) ∧
+      w7.delivered = w.delivered + 1 ∧ w7.anon = w.anon ∧ w7.muted = false ∧ w7.nextId = w.nextId ∧
+      w7.mainTok = w.mainTok := by
+  obtain ⟨w1, t1, hs1, ht1, hty1, hv1, hi1⟩ := parseDecl_plain env F D pt {} location doxygen false ops x colon d1 w bmid bx bc
+    blk rest hstack hpt hy ha htx hx hxv htc (.inr (.inr (.inr hc))) hF
+  have hnm : fieldName true (.mk [.name x.value none] none false) = some (some x.value) := rfl
+  obtain ⟨w5, t5, b5, dox, hs5, ht5, hsig5, hty5, hv5, hdox, hi5⟩ := parseField_bits env F {} d1 (.mk [.name x.value none] none false)
+    none doxygen location w1 t1 num tm bc bn b' blk rest (by rw [hs1.stack]; exact hstack) hk (some x.value) hnm ht1 (hty1.trans hc)
+    htn hn hdig httm (by rcases htm with h | h <;> (rw [h]; decide))
+  -- the callback
+  have hst5 : w5.stack = { blk with loc := location } :: rest := hs5.stack
+  have hmu5 : w5.muted = false := by rw [hs5.muted]; show w1.muted = _; rw [hs1.muted]; exact hmu
+  have hdl5 : w5.delivered = w.delivered := by rw [hs5.delivered]; show w1.delivered = _; exact hs1.delivered
+  have hev5 : w5.events = w.events := by rw [hs5.events]; show w1.events = _; exact hs1.events
+  have hdel := deliver_passing env w5 (mkEvent w5 (.item (.classField { plainField x d1 acc dox with bits := some num.value.toNat! }))
+    { blk with loc := location } (rest.head?.map (·.id))) hmu5 (by rw [hdl5]; exact hfa)
+  have htok6 : tokenEofOk env.cfg ({ w5 with events := w5.events ++ [mkEvent w5 (.item (.classField { plainField x d1 acc dox with bits := some num.value.toNat! }))
+      { blk with loc := location } (rest.head?.map (·.id))], delivered := w5.delivered + 1 } : World).buf = .ok (some t5, b5) := ht5
+  obtain ⟨w7, c7, hi7, hb7, hs7, hty7, _⟩ := step_mustBe env [",", ";"] _ t5 b5 htok6
+    (by rw [hty5]; rcases htm with h | h <;> (rw [h]; decide))
+  refine ⟨w7, c7, dox, _, ?_, by rw [hb7]; exact hsig5, by rw [hs7.stack]; exact hst5, by rw [hs7.events, hev5], rfl, rfl, rfl,
+    hdox, by rw [hs7.delivered, hdl5], ?_, by rw [hs7.muted]; exact hmu5, ?_, ?_⟩
+  · unfold declaratorBody
+    have hi7' := hi7
+    simp only [hst5, plainField, hacc] at hi7'
+    simp only [bind, interp_bind, hi1, hi5, fieldEmit, Block.view, hk, hacc, decide_true, Bool.false_eq_true, ↓reduceIte, hasKey,
+      List.any_nil, P.emit, interp, hst5, plainField] at hdel ⊢
+    simp only [hdel, Bool.false_eq_true, ↓reduceIte, bind, interp_bind, pure, interp, hi7', hty7, hty5, afterDeclarator]
     rcases htm with h | h <;> simp [h, interp]
   · rw [hs7.anon]; show w5.anon = _; rw [hs5.anon]; exact hs1.anon
   · rw [hs7.nextId]; show w5.nextId = _; rw [hs5.nextId]; exact hs1.nextId
